@@ -189,7 +189,7 @@ def main(tier):
             CC.settings_of = CC.settings_rewards_as_written      # 'the fail reward' is the configured value
             CC.directed_defender(drv, rng, tabs, cfail, coord_stats, 16 if tier == "quick" else 300)
             CC.run_sessions(drv, rng, tabs, cfail, coord_stats, 80 if tier == "quick" else 800, 45,
-                            {"bad": 0.01, "leave": 0.02, "roles": ["Attacker", "Attacker", "Defender"], "outcome_mix": True,
+                            {"bad": 0.01, "leave": 0.02, "roles": ["Attacker", "Attacker", "Defender", "Benign"], "outcome_mix": True,
                              "force_env": {"use_global_defender": True}, "attacker_max_steps": [6, 7, 8, 10, 12]}, cfg_gen=cfg_gen)
         finally:
             GD.random = orig_random
